@@ -154,10 +154,12 @@ def run_harness(ctx, jobs, tag):
     bf = os.path.join(ctx.scratch, "c13-%s-beh.json" % tag)
     tr = os.path.join(ctx.scratch, "c13-%s.ndjson" % tag)
     write_json(bf, [{"id": j["id"], "steps": j["steps"]} for j in jobs])
-    rc, out = go_test(ctx, "db", "^TestVerif_C13_Revocation$", HARNESS, env={"VERIF_BEH": bf, "VERIF_TRACE_OUT": tr}, timeout=2400)
-    if rc != 0 or not os.path.exists(tr):
-        raise Inconclusive("C13 harness failed (%s):\n%s" % (tag, harness_failure(out)))
-    return tr, read_ndjson(tr)
+    for attempt in (1, 2):      # an infrastructure failure (change cache stall under load, ...) is retried once, then inconclusive
+        rc, out = go_test(ctx, "db", "^TestVerif_C13_Revocation$", HARNESS, env={"VERIF_BEH": bf, "VERIF_TRACE_OUT": tr}, timeout=3600)
+        if rc == 0 and os.path.exists(tr):
+            return tr, read_ndjson(tr)
+        ctx.notes.append("harness run %s attempt %d failed: %s" % (tag, attempt, harness_failure(out)[:400]))
+    raise Inconclusive("C13 harness failed twice (%s):\n%s" % (tag, harness_failure(out)))
 
 
 def split_rows(rows):
